@@ -16,6 +16,10 @@ from ..report import Out
 from .. import sched as S
 
 ID = 'C16'
+# sub-checks added after the seeded-change waves (DESIGN.md sections 5 and 6)
+EXTENSIONS = [
+    'kernel order logged at execution; kernel+main mode (starting thread scheduled at Thread.start()); complex-valued and reused-form configurations; thorough tier sharded with count check',
+]
 LEVEL = 'model_checking'
 TECHNIQUE = "stateless schedule enumeration of the real worker threads under a controlled (baton) scheduler"
 LEVEL_TEXT = ("Every execution is the real BilinearForm._assemble with real threading.Thread workers; the module-level "
